@@ -73,7 +73,8 @@ impl<D, E> BodyWriter<D, E> {
             /*@C11 #dead_writer_rejects_flush*/ old(self).0 is Dead ==> r.is_err() && final(self).0 is Dead,
             /*@C11 #failed_flush_kills_writer*/ r.is_err() ==> final(self).0 is Dead,
             /*@C08 #raw_flush_is_chunker_flush*/ old(self).0 matches Inner::Raw(w0) ==> (r.is_ok() ==> (final(self).0 matches Inner::Raw(w1) && w0.flush_rel(r, w1))),
-            /*@C09 #gzip_flush_is_encoder_flush*/ old(self).0 matches Inner::Gzipped(g0) ==> (r.is_ok() ==> (final(self).0 matches Inner::Gzipped(g1) && g0.flush_rel(r, g1))),
+            /*@C09 #gzip_flush_is_two_encoder_flushes*/ old(self).0 matches Inner::Gzipped(g0) ==> (r.is_ok() ==> (final(self).0 matches Inner::Gzipped(g1)
+                    && exists|gm: flate2::write::GzEncoder<chunker::Writer<D, E>>, r1: io::Result<()>| r1.is_ok() && #[trigger] g0.flush_rel(r1, gm) && gm.flush_rel(r, g1))),
     //@body
     //@end
 }
